@@ -660,6 +660,35 @@ impl Model {
                 self.drop_if_empty(db, &args[1]);
                 Exp::Is(r)
             }
+            "BLPOP" | "BRPOP" => {
+                // only the non-blocking outcome is modelled: the first listed key holding a list with elements is popped
+                if n < 3 {
+                    return Exp::Err;
+                }
+                match float_arg(&args[n - 1]) {
+                    FloatArg::Val(t) if t >= 0.0 => {}
+                    FloatArg::DontCare => return Exp::Any,
+                    _ => return Exp::Err,
+                }
+                let left = name == "BLPOP";
+                for k in &args[1..n - 1] {
+                    match self.get_mut(db, k) {
+                        None => continue,
+                        Some(e) => match &mut e.val {
+                            Val::List(l) => {
+                                let v = if left { l.pop_front() } else { l.pop_back() };
+                                if let Some(v) = v {
+                                    let key = k.clone();
+                                    self.drop_if_empty(db, &key);
+                                    return Exp::Is(R::Arr(vec![bulk(&key), bulk(&v)]));
+                                }
+                            }
+                            _ => return wt(),
+                        },
+                    }
+                }
+                Exp::Any // would block: outside this model (C13 has its own)
+            }
             "LLEN" => {
                 if n != 2 {
                     return Exp::Err;
